@@ -107,6 +107,11 @@ class Sim:
         self.steps = 0
         self.stats = collections.Counter()
         self.blackout = None
+        # NAT rebinding bookkeeping: `addr_epoch` counts the client's address changes; the server "knows" the current address once it has
+        # received a datagram the client sent after the latest change and has afterwards sent to that address
+        self.addr_epoch = 0
+        self.srv_saw_epoch = False
+        self.srv_knows_addr = False
         self.observe = observe
         self.wire = None
         self.ep = {}
@@ -303,9 +308,16 @@ class Sim:
         if not fates:
             self.dropped_datagrams.append((x, now))
         src = self.ep[x].addr
+        if x == "s" and self.srv_saw_epoch and addr == self.ep["c"].addr:
+            self.srv_knows_addr = True
         extra = self.cfg.get("s2c_extra_delay", 0.0) if (x == "s" and now < self.adv_end) else 0.0  # an asymmetric path: the way back is slower
+        hold = self.cfg.get("hold_client_datagrams")
+        if hold and x == "c" and hold[0] <= now < hold[1]:
+            # the network holds back what the client sent in this window (reordering across a NAT rebinding)
+            extra += hold[2]
+            self.stats["held-client-datagram"] += 1
         for _, delay in fates:
-            self.push(now + delay + extra, "rx", peer, data, src, addr)
+            self.push(now + delay + extra, "rx", peer, data, src, addr, self.addr_epoch)
 
     # ------------------------------------------------------------------ server front door
     def server_receive(self, data, src, now):
@@ -451,6 +463,8 @@ class Sim:
                 if to is not None and CLIENT_ADDRS[to] == ep.addr:
                     to = (to + 1) % len(CLIENT_ADDRS)
                 ep.addr = CLIENT_ADDRS[to] if to is not None else (CLIENT_ADDR2 if ep.addr == CLIENT_ADDR else CLIENT_ADDR)
+                self.addr_epoch += 1
+                self.srv_saw_epoch = self.srv_knows_addr = False
                 for m in self.monitors:
                     m.on_api(self, x, "rebind", {"addr": ep.addr})
                 self.stats["op:rebind"] += 1
@@ -532,6 +546,15 @@ class Sim:
                     # (In the fair phase the network delivers: both mappings are alive.)
                     self.stats["lost-to-stale-address"] += 1
                     continue
+                if len(a) > 3 and x == "c" and a[3] != ep.addr and self.srv_knows_addr:
+                    # fair phase, but the server has heard from the client's current address and used it since: a datagram it still
+                    # sends to an address the client has left is the server's own doing, and nobody is there (RFC 9000 section 9.3:
+                    # only a packet with the highest packet number seen moves the path).  Before the server has learnt the current
+                    # address the fair network stays lenient, because a silent client gives it no way to learn it.
+                    self.stats["lost-to-left-address-fair"] += 1
+                    continue
+                if x == "s" and len(a) > 4 and a[4] == self.addr_epoch and not ep.terminated:
+                    self.srv_saw_epoch = True
                 if x == "s" and ep.conn is None:
                     if not self.server_receive(data, src, now):
                         continue
